@@ -1,72 +1,174 @@
-"""./check selftest [name ...] [--props C01,C02] : apply each seeded change to /repo, run the quick
-checks, report which properties' checks raise a VIOLATION, and revert. Results are written to
-/verif/seeded/RESULTS.json. /repo must be clean; it is restored after every patch."""
+"""./check selftest [name ...] [--props C01,C02] [--jobs J] [--inplace]
+
+Detection demonstration: for each seeded change under /verif/seeded/<name>/patch.diff, run the
+quick checks against micromap *with the change applied* and record which properties' checks
+raise a VIOLATION (written to /verif/seeded/RESULTS.json).
+
+Two modes:
+  --inplace   apply the patch to /repo itself (git -C /repo apply), run the registered commands
+              exactly as they are, undo (git -C /repo checkout -- .). /repo must be clean.
+  default     each worker owns a scratch checkout of /repo's HEAD under /tmp/selftest-<i>/repo and a
+              build directory /tmp/selftest-<i>/target; the same ./check commands are pointed at them
+              through VERIF_REPO / VERIF_TARGET (a cargo `paths` override), so /repo is never touched
+              and J seeded changes are examined in parallel. Scratch directories are removed at the end.
+"""
 import json
 import os
+import shutil
 import subprocess
 import sys
+import threading
 import time
+from concurrent.futures import ThreadPoolExecutor
 
 VERIF = os.path.dirname(os.path.abspath(__file__))
 SEEDED = os.path.join(VERIF, "seeded")
+LOCK = threading.Lock()
 
 
-def sh(cmd):
-    return subprocess.run(cmd, shell=True, stdout=subprocess.PIPE, stderr=subprocess.STDOUT, text=True)
+def sh(cmd, env=None):
+    e = dict(os.environ)
+    if env:
+        e.update(env)
+    return subprocess.run(cmd, shell=True, stdout=subprocess.PIPE, stderr=subprocess.STDOUT, text=True, env=e)
+
+
+def classify(all_props, tier, env):
+    caught, clean, broken, notes = [], [], [], {}
+    for pid in all_props:
+        p = sh(f"cd {VERIF} && ./check {pid} --tier {tier}", env)
+        if p.returncode == 1 and "VIOLATION property=" in p.stdout:
+            caught.append(pid)
+            first = [l for l in p.stdout.splitlines() if l.strip().startswith(("observed:", "history="))][:2]
+            notes[pid] = " | ".join(x.strip()[:240] for x in first)
+        elif p.returncode == 0:
+            clean.append(pid)
+        else:
+            broken.append(pid)
+            notes[pid] = p.stdout[-300:]
+    return caught, clean, broken, notes
 
 
 def main(argv, tier):
     props = None
+    jobs = 3
+    inplace = False
     if "--props" in argv:
         i = argv.index("--props")
         props = argv[i + 1].split(",")
         del argv[i:i + 2]
+    if "--jobs" in argv:
+        i = argv.index("--jobs")
+        jobs = int(argv[i + 1])
+        del argv[i:i + 2]
+    if "--inplace" in argv:
+        argv.remove("--inplace")
+        inplace = True
+    target_only = False
+    if "--target-only" in argv:
+        argv.remove("--target-only")
+        target_only = True
     names = argv or sorted(d for d in os.listdir(SEEDED) if os.path.isfile(os.path.join(SEEDED, d, "patch.diff")))
-    if sh("git -C /repo status --porcelain --untracked-files=no").stdout.strip():
-        print("refusing: /repo has uncommitted changes")
-        return 2
     import importlib.machinery, importlib.util
     loader = importlib.machinery.SourceFileLoader("check_mod", os.path.join(VERIF, "check"))
     spec = importlib.util.spec_from_loader("check_mod", loader)
     chk = importlib.util.module_from_spec(spec)
     loader.exec_module(chk)
-    all_props = props or list(chk.PLAN.keys())
     results_path = os.path.join(SEEDED, "RESULTS.json")
-    results = {}
-    if os.path.exists(results_path):
-        results = json.load(open(results_path))
-    for name in names:
-        patch = os.path.join(SEEDED, name, "patch.diff")
-        meta_p = os.path.join(SEEDED, name, "meta.json")
-        meta = json.load(open(meta_p)) if os.path.exists(meta_p) else {}
+    results = json.load(open(results_path)) if os.path.exists(results_path) else {}
+    head = sh("git -C /repo rev-parse --short HEAD").stdout.strip()
+
+    def props_for(meta):
+        if props:
+            return props
+        if target_only and meta.get("breaks_property"):
+            return [meta["breaks_property"]]
+        return list(chk.PLAN.keys())
+
+    def record(name, meta, caught, clean, broken, notes, t0, mode):
         target = meta.get("breaks_property")
-        t0 = time.time()
-        r = sh(f"git -C /repo apply {patch}")
-        if r.returncode != 0:
-            print(f"{name}: patch does not apply: {r.stdout}")
-            results[name] = {"error": "patch does not apply"}
-            continue
+        entry = {"breaks_property": target, "caught_by": caught, "silent": clean, "machinery_error": broken,
+                 "target_check_catches": (target in caught) if target else None, "tier": tier, "mode": mode,
+                 "repo_head": head, "first_observation": notes, "wall_s": round(time.time() - t0, 1)}
+        with LOCK:
+            if (props or target_only) and name in results and not results[name].get("error"):
+                # partial run: merge into the existing row
+                old = results[name]
+                for k in ("caught_by", "silent", "machinery_error"):
+                    old[k] = sorted((set(old.get(k, [])) - set(caught + clean + broken)) | set(entry[k]))
+                old.setdefault("first_observation", {}).update(notes)
+                old["target_check_catches"] = (target in old["caught_by"]) if target else None
+                old["repo_head"] = head
+            else:
+                results[name] = entry
+            with open(results_path, "w") as f:
+                json.dump(results, f, indent=1, sort_keys=True)
+        flag = "CAUGHT" if caught else "MISSED"
+        print(f"{name}: {flag} target={target} caught_by={caught} machinery={broken}", flush=True)
+
+    if inplace:
+        if sh("git -C /repo status --porcelain --untracked-files=no").stdout.strip():
+            print("refusing: /repo has uncommitted changes")
+            return 2
+        for name in names:
+            meta_p = os.path.join(SEEDED, name, "meta.json")
+            meta = json.load(open(meta_p)) if os.path.exists(meta_p) else {}
+            t0 = time.time()
+            r = sh(f"git -C /repo apply {os.path.join(SEEDED, name, 'patch.diff')}")
+            if r.returncode != 0:
+                print(f"{name}: patch does not apply: {r.stdout}")
+                results[name] = {"error": "patch does not apply"}
+                continue
+            try:
+                if not (props or target_only):
+                    sh(f"cd {VERIF} && ./check build")
+                record(name, meta, *classify(props_for(meta), tier, None), t0, "in place (/repo patched, registered commands)")
+            finally:
+                sh("git -C /repo checkout -- .")
+        return 0
+
+    slots = list(range(jobs))
+    slot_lock = threading.Lock()
+
+    def worker(name):
+        with slot_lock:
+            slot = slots.pop()
         try:
-            # build everything once, in parallel
-            sh(f"cd {VERIF}/mc && CARGO_TARGET_DIR={VERIF}/target cargo build --release --bins")
-            sh(f"cd {VERIF}/mc && CARGO_TARGET_DIR={VERIF}/target cargo build --bins")
-            caught, clean, broken = [], [], []
-            for pid in all_props:
-                p = sh(f"cd {VERIF} && ./check {pid} --tier {tier}")
-                if p.returncode == 1 and "VIOLATION property=" in p.stdout:
-                    caught.append(pid)
-                elif p.returncode == 0:
-                    clean.append(pid)
-                else:
-                    broken.append(pid)
-            results[name] = {"breaks_property": target, "caught_by": caught, "silent": clean, "machinery_error": broken,
-                             "target_check_catches": (target in caught) if target else None, "tier": tier,
-                             "wall_s": round(time.time() - t0, 1)}
-            flag = "CAUGHT" if caught else "MISSED"
-            print(f"{name}: {flag} target={target} caught_by={caught} machinery={broken}")
+            base = f"/tmp/selftest-{slot}"
+            wt, tgt = f"{base}/repo", f"{base}/target"
+            if not os.path.isdir(wt):
+                os.makedirs(base, exist_ok=True)
+                sh("git -C /repo worktree prune")
+                r = sh(f"git -C /repo worktree add --detach {wt} HEAD")
+                if r.returncode != 0:
+                    print(f"{name}: cannot create scratch checkout: {r.stdout}")
+                    return
+            sh(f"git -C {wt} checkout -q --detach {head} && git -C {wt} checkout -- . && git -C {wt} clean -fdq")
+            meta_p = os.path.join(SEEDED, name, "meta.json")
+            meta = json.load(open(meta_p)) if os.path.exists(meta_p) else {}
+            t0 = time.time()
+            r = sh(f"git -C {wt} apply {os.path.join(SEEDED, name, 'patch.diff')}")
+            if r.returncode != 0:
+                print(f"{name}: patch does not apply: {r.stdout}")
+                with LOCK:
+                    results[name] = {"error": "patch does not apply"}
+                return
+            env = {"VERIF_REPO": wt, "VERIF_TARGET": tgt}
+            if not (props or target_only):
+                b = sh(f"cd {VERIF} && ./check build", env)
+                if "MACHINERY-ERROR" in b.stdout:
+                    print(f"{name}: build failed with the patch applied: {b.stdout[-600:]}")
+            record(name, meta, *classify(props_for(meta), tier, env), t0, "scratch checkout (VERIF_REPO override)")
         finally:
-            sh("git -C /repo checkout -- .")
-        with open(results_path, "w") as f:
-            json.dump(results, f, indent=1, sort_keys=True)
-    # restore evidence for the unchanged tree is the caller's job (re-run the checks)
+            with slot_lock:
+                slots.append(slot)
+
+    with ThreadPoolExecutor(max_workers=jobs) as ex:
+        list(ex.map(worker, names))
+    for slot in range(jobs):
+        base = f"/tmp/selftest-{slot}"
+        if os.path.isdir(base):
+            sh(f"git -C /repo worktree remove --force {base}/repo")
+            shutil.rmtree(base, ignore_errors=True)
+    sh("git -C /repo worktree prune")
     return 0
